@@ -3,6 +3,14 @@
    1. the extracted checkers LoopMonitors.check_transcript / check_outcome are
       applied to the REAL transcript (windows = wall clock around the calls,
       tolerance 5 ms): MONITOR lines = the property fails on the real code;
+   1b. the extracted device-level monitor LoopDevice.device_check is applied to
+      the REAL transcript: the keys the acknowledged sends leave down on the
+      virtual keyboard against the specification mapper for the inputs the
+      transcript implies (MONITOR clauses C01.device = a key is down although
+      nothing is physically held, C02.device = the device is out of step with
+      the mapper, C19.device = a send presses a held key / releases an up key;
+      theorems C01_loop_device_monitor_never_fires, C02_loop_device_in_step,
+      C19_loop_device_no_redundant_event);
    2. Loop.run is run on the same answers (clock readings taken from the
       recorded wall clock) and its calls, time-outs and outcome are compared
       with the real ones: DIFF lines, classes CALLS / TIMEOUT / OUTCOME and the
@@ -210,6 +218,16 @@ let clause_name = function
   | L_C12_off_fresh -> "C12.off_fresh"
   | L_C20_stops -> "C20.stops"
 
+let device_clause_name = function
+  | D_stuck -> "C01.device"
+  | D_step -> "C02.device"
+  | D_redundant -> "C19.device"
+
+let device_clause_text = function
+  | D_stuck -> "no_key_is_physically_held_but_the_acknowledged_sends_leave_a_key_down_on_the_virtual_keyboard"
+  | D_step -> "the_keys_down_on_the_virtual_keyboard_after_the_acknowledged_sends_are_not_the_held_set_of_the_specification_mapper"
+  | D_redundant -> "this_send_presses_a_key_that_is_down_on_the_virtual_keyboard_or_releases_one_that_is_up"
+
 let outcome_of_real (s : string) : outcome =
   let t = split_ws s in
   match t.(0) with
@@ -346,6 +364,21 @@ let check_case (c : case) (findings : Buffer.t) : int * int * bool =
           Buffer.add_string findings
             (Printf.sprintf "MONITOR case=%s clause=%s index=%d observed=returned:%s\n" c.id name (n - 1) (String.concat "_" (Array.to_list (split_ws c.out))))
         end) (x_check_outcome tr real_out);
+    (* 1b. the device-level monitor (LoopDevice.device_check) on the REAL transcript: what the acknowledged sends
+       leave held on the virtual keyboard against the specification mapper for the inputs the transcript implies *)
+    let dtr = List.map (fun (_, r) -> (r.call, (match r.resp with Some x -> x | None -> RUnit))) answered in
+    let aidx = Array.of_list (List.map fst answered) in
+    List.iter (fun (idx, cl) ->
+        let name = device_clause_name cl in
+        if not (Hashtbl.mem seen name) then begin
+          Hashtbl.add seen name ();
+          define ();
+          let j = aidx.(int_of_n idx) in
+          let r = c.recs.(j) in
+          Buffer.add_string findings
+            (Printf.sprintf "MONITOR case=%s clause=%s index=%d observed=%s=>%s:%s\n" c.id name j (call_str r.call) (resp_str r.resp)
+               (device_clause_text cl))
+        end) (x_device_check c.layout dtr);
     (* 2. the model on the same answers *)
     let resps = ref [] in            (* reversed *)
     let mcalls = ref [] in           (* reversed: (call, real index or -1, tolerance ns) *)
